@@ -122,7 +122,7 @@ func (r ReadDiscreteInputsResponse) bytes(data []byte) []byte {
 	data[1] = FunctionReadDiscreteInputs
 	coilsByteLen := uint8(len(r.Data))
 	data[2] = coilsByteLen
-	copy(data[3:3+coilsByteLen], r.Data)
+	copy(data[3:3+int(coilsByteLen)], r.Data)
 
 	return data
 }
